@@ -359,3 +359,76 @@ func VH_C04_body_id(kind, sched int) {
 	}
 	vreach("end")
 }
+
+// vhMutInterp: an action interpreter whose action "mut" changes what it was given as the
+// event (a map nested in an array, an array element, a nested map value) and whose action
+// "obs" records what it sees there.
+type vhMutInterp struct {
+	seen []string
+}
+
+func (i *vhMutInterp) GetName() string { return "vhmut" }
+func (i *vhMutInterp) GetThunk(ctx *Context, loc *Location, bs Bindings, a Action) (func() (interface{}, error), error) {
+	return func() (interface{}, error) {
+		code, _ := a.Code.(string)
+		var ev map[string]interface{}
+		switch e := bs["?event"].(type) {
+		case map[string]interface{}:
+			ev = e
+		case Map:
+			ev = map[string]interface{}(e)
+		}
+		if ev == nil {
+			return nil, NewSyntaxError("no event")
+		}
+		items, _ := ev["items"].([]interface{})
+		sub, _ := ev["sub"].(map[string]interface{})
+		if len(items) != 2 || sub == nil {
+			return nil, NewSyntaxError("unexpected event")
+		}
+		inner, _ := items[1].(map[string]interface{})
+		if inner == nil {
+			return nil, NewSyntaxError("unexpected event")
+		}
+		if code == "mut" {
+			items[0] = "changed"
+			inner["k"] = "changed"
+			sub["k"] = "changed"
+			return "mutated", nil
+		}
+		s0, _ := items[0].(string)
+		s1, _ := inner["k"].(string)
+		s2, _ := sub["k"].(string)
+		i.seen = append(i.seen, s0+"/"+s1+"/"+s2)
+		return "observed", nil
+	}, nil
+}
+
+// VH_C04_event_copy: every execution gets the event as it was sent: what one action does to
+// its event (also inside arrays) is invisible to the rule's other action and to the caller.
+func VH_C04_event_copy(kind int) {
+	env := vhNewEnv(kind)
+	in := &vhMutInterp{}
+	c := DefaultControl()
+	c.ActionInterpreters = map[string]ActionInterpreter{"vhmut": in}
+	env.loc.SetControl(c)
+	r := Map{
+		"when":     map[string]interface{}{"pattern": map[string]interface{}{"a": "?x"}},
+		"policies": map[string]interface{}{"serialActions": true},
+		"actions": []interface{}{
+			map[string]interface{}{"endpoint": "vhmut", "code": "mut"},
+			map[string]interface{}{"endpoint": "vhmut", "code": "obs"},
+		},
+	}
+	_, err := env.loc.AddRule(env.ctx, "r", r)
+	vassume(err == nil)
+	v := vsymStrN("orig", 3)
+	vassume(v != "changed")
+	ev := Map{"a": "1", "items": []interface{}{v, map[string]interface{}{"k": v}}, "sub": map[string]interface{}{"k": v}}
+	env.loc.ProcessEvent(env.ctx, ev)
+	vassert(len(in.seen) == 1, "each-action-exactly-once")
+	if len(in.seen) == 1 {
+		vassert(in.seen[0] == v+"/"+v+"/"+v, "one-execution-does-not-alter-another")
+	}
+	vreach("end")
+}
